@@ -157,6 +157,11 @@ Transformations ==
   \cup {[tok |-> <<kd[1], S(n), S(k)>>, fn |-> kd[2], pos |-> <<I(n), I(k)>>] :
             kd \in {<<"atleast", "AtLeastKSubstitution">>, <<"atmost", "AtMostKSubstitution">>,
                     <<"exact", "ExactlyKSubstitution">>, <<"anybut", "AnythingButKSubstitution">>}, n \in 1..3, k \in 1..3}
+  \* variable compression onto N new variables through a random d-left-regular graph drawn when
+  \* the transformation is applied (the library call is VariableCompression(F, B, function))
+  \cup {[tok |-> <<kd[1], S(t[1]), S(t[2])>>, fn |-> kd[2], pos |-> <<I(t[1]), I(t[2])>>] :
+            kd \in {<<"xorcomp", "VariableCompression_xor_random">>, <<"majcomp", "VariableCompression_maj_random">>},
+            t \in {<<4, 2>>, <<5, 3>>, <<6, 1>>}}
   \cup {[tok |-> <<"ite">>,  fn |-> "IfThenElseSubstitution", pos |-> <<>>],
         [tok |-> <<"flip">>, fn |-> "FlipPolarity", pos |-> <<>>],
         [tok |-> <<"none">>, fn |-> "identity", pos |-> <<>>]}
